@@ -117,10 +117,54 @@ func c11R1(c *Ctx) {
 				}
 			}
 		}
-		req := fmt.Sprintf(`%[1]s.AllocationType.Type == %[2]s && %[1]s.AllocationType.ReleaseStrategy == %[3]s && err == nil && !(duration < 0) && !podENI.Status.PodLastSeen.Add(duration).After(now) && !%[4]s`, alloc, fixed, ttl, keep.Name())
-		c.Require("C11.R1", "keep = false only on the expiry path", fn, d.node, req, nil)
+		// the duration parse and the expiry comparison as they occur in the code
+		var parse *ast.AssignStmt
+		var afterExpr *ast.CallExpr
+		ast.Inspect(fn.Decl.Body, func(k ast.Node) bool {
+			if a2, ok := k.(*ast.AssignStmt); ok && len(a2.Rhs) == 1 && len(a2.Lhs) == 2 && strings.HasPrefix(exprString(a2.Rhs[0]), "time.ParseDuration(") && strings.Contains(derefString(fn, a2.Rhs[0]), ".ReleaseAfter") {
+				parse = a2
+			}
+			return true
+		})
+		if parse != nil {
+			durObj := identObj(info, parse.Lhs[0])
+			ast.Inspect(fn.Decl.Body, func(k ast.Node) bool {
+				call, ok := k.(*ast.CallExpr)
+				if !ok {
+					return true
+				}
+				sel, ok := ast.Unparen(call.Fun).(*ast.SelectorExpr)
+				if !ok || sel.Sel.Name != "After" || len(call.Args) != 1 {
+					return true
+				}
+				if add, ok := ast.Unparen(sel.X).(*ast.CallExpr); ok && len(add.Args) == 1 && identObj(info, add.Args[0]) == durObj {
+					if as2, ok := ast.Unparen(add.Fun).(*ast.SelectorExpr); ok && as2.Sel.Name == "Add" && strings.HasSuffix(derefString(fn, as2.X), ".PodLastSeen") {
+						afterExpr = call
+					}
+				}
+				return true
+			})
+		}
+		if parse == nil || afterExpr == nil {
+			c.Undec("C11.R1", "keep = false only on the expiry path", p.Pos(d.node), fn.Key(), "", "ReleaseAfter parse / lastSeen.Add(duration).After(now) comparison not found")
+			continue
+		}
+		dn, en := exprString(parse.Lhs[0]), exprString(parse.Lhs[1])
+		c.RequireF("C11.R1", "keep = false only on the expiry path", fn, d.node,
+			fmt.Sprintf(`%[1]s.AllocationType.Type == %[2]s && %[1]s.AllocationType.ReleaseStrategy == %[3]s && parse error == nil && !(duration < 0) && !%[4]s && !%[5]s`, alloc, fixed, ttl, exprString(afterExpr), keep.Name()),
+			func(fe *FactEngine) (*Formula, error) {
+				strat, err := fe.Expr(fmt.Sprintf(`%[1]s.AllocationType.Type == %[2]s && %[1]s.AllocationType.ReleaseStrategy == %[3]s`, alloc, fixed, ttl), d.node.Pos())
+				if err != nil {
+					return nil, err
+				}
+				parsed, err := fe.Expr(fmt.Sprintf(`%s == nil && !(%s < 0)`, en, dn), parse.End())
+				if err != nil {
+					return nil, err
+				}
+				return mkAnd(mkAnd(strat, parsed), mkAnd(mkNot(fe.Cond(afterExpr)), mkNot(fe.Cond(identFor(info, keep))))), nil
+			})
 	}
-	c.Floor("C11.R1", "keep = true assignments", 4, nTrue)
+	c.Floor("C11.R1", "keep = true assignments", 2, nTrue)
 	c.Check(nFalse <= 1, "C11.R1", "single expiry path", p.Pos(fn.Decl), fn.Key(), "at most one keep = false", fmt.Sprintf("%d", nFalse))
 	// 'now' and 'duration' are what they seem: now := time.Now(), duration := ParseDuration(ReleaseAfter)
 	okNow, okDur := false, false
@@ -130,7 +174,7 @@ func c11R1(c *Ctx) {
 			if len(as.Lhs) == 1 && exprString(as.Lhs[0]) == "now" && src == "time.Now()" {
 				okNow = true
 			}
-			if len(as.Lhs) == 2 && exprString(as.Lhs[0]) == "duration" && strings.HasPrefix(src, "time.ParseDuration(") && strings.Contains(src, ".ReleaseAfter") {
+			if len(as.Lhs) == 2 && strings.HasPrefix(src, "time.ParseDuration(") && strings.Contains(derefString(fn, as.Rhs[0]), ".ReleaseAfter") {
 				okDur = true
 			}
 		}
@@ -389,23 +433,44 @@ func c11R3(c *Ctx) {
 			return true
 		}
 		e := exprString(rs.Value)
-		// find the tag filter variable and the creation time variable
-		var tagVar, timeVar string
+		// the tag filter call, the creation-time parse and the age test, as they occur in the code
+		var filterCall *ast.CallExpr
+		var tObj, errObj types.Object
+		var afterExpr *ast.CallExpr
 		ast.Inspect(fn.Decl.Body, func(k ast.Node) bool {
 			if call, ok := k.(*ast.CallExpr); ok && Callee(info, call) == filter.Obj && len(call.Args) == 2 {
-				tagVar = exprString(call.Args[1])
+				filterCall = call
 			}
-			if a2, ok := k.(*ast.AssignStmt); ok && len(a2.Rhs) == 1 && strings.HasPrefix(exprString(a2.Rhs[0]), "time.Parse(") && strings.Contains(exprString(a2.Rhs[0]), ".CreationTime") {
-				timeVar = exprString(a2.Lhs[0])
+			if a2, ok := k.(*ast.AssignStmt); ok && len(a2.Rhs) == 1 && len(a2.Lhs) == 2 && strings.HasPrefix(exprString(a2.Rhs[0]), "time.Parse(") && strings.Contains(derefString(fn, a2.Rhs[0]), ".CreationTime") {
+				tObj, errObj = identObj(info, a2.Lhs[0]), identObj(info, a2.Lhs[1])
 			}
 			return true
 		})
-		if tagVar == "" || timeVar == "" {
-			c.Undec("C11.R3", "candidate insertion guards", p.Pos(as), fn.Key(), "", "tag filter call / creation-time parse not found")
+		ast.Inspect(fn.Decl.Body, func(k ast.Node) bool {
+			call, ok := k.(*ast.CallExpr)
+			if !ok || tObj == nil {
+				return true
+			}
+			sel, ok := ast.Unparen(call.Fun).(*ast.SelectorExpr)
+			if !ok || sel.Sel.Name != "After" || len(call.Args) != 1 {
+				return true
+			}
+			if add, ok := ast.Unparen(sel.X).(*ast.CallExpr); ok {
+				if as2, ok := ast.Unparen(add.Fun).(*ast.SelectorExpr); ok && as2.Sel.Name == "Add" && identObj(info, as2.X) == tObj {
+					afterExpr = call
+				}
+			}
+			return true
+		})
+		if filterCall == nil || tObj == nil || errObj == nil || afterExpr == nil {
+			c.Undec("C11.R3", "candidate insertion guards", p.Pos(as), fn.Key(), "", "tag filter call / creation-time parse / age test not found")
 			return true
 		}
-		c.Require("C11.R3", "candidate only if tagged as ours, parsable age and older than the grace period", fn, as,
-			fmt.Sprintf("m.eniFilter(%s, %s) && err == nil && !%s.Add(10 * time.Minute).After(now)", e, tagVar, timeVar), nil)
+		c.RequireF("C11.R3", "candidate only if tagged as ours, parsable age and older than the grace period", fn, as,
+			fmt.Sprintf("m.eniFilter(%s, tags) && parse error == nil && !%s", e, exprString(afterExpr)), func(fe *FactEngine) (*Formula, error) {
+				errNil := fe.eqAtom(objID(errObj), "nil", []string{objID(errObj)})
+				return mkAnd(fe.Cond(filterCall), mkAnd(errNil, mkNot(fe.Cond(afterExpr)))), nil
+			})
 		// key is the interface's own id and the value is that interface
 		okKV := exprString(ix.Index) == e+".NetworkInterfaceID"
 		c.Check(okKV, "C11.R3", "candidate keyed by its own id", p.Pos(as), fn.Key(), "eniMap["+e+".NetworkInterfaceID] = <that interface>", exprString(ix.Index))
